@@ -599,3 +599,13 @@ impl VerifCountedLock for Arc<Mutex<MetricsCollectorInner>> {
         guard
     }
 }
+
+#[cfg(feature = "verif-hooks")]
+impl MetricsCollector {
+    /// Verification hook: run `f` while the calling thread HOLDS this collector's mutex, so that a
+    /// harness can make another thread's call meet a contended lock at a chosen moment.
+    pub fn verif_with_lock_held<R>(&self, f: impl FnOnce() -> R) -> R {
+        let _g = Mutex::lock(&self.inner).unwrap_or_else(PoisonError::into_inner);
+        f()
+    }
+}
